@@ -7,6 +7,7 @@ from ..interp_prop import InterpProp
 
 class C13(InterpProp):
     id = 'C13'
+    decoy = 0.12
     anomaly_tags = ('time',)
     # observables compared with the model (see InterpProp.normalize)
     cmp_eff = ('guard', 'cond', 'meta')
